@@ -182,6 +182,13 @@ def run(ctx):
     # callback (`visit_u64` / `visit_i64`) the format's reader uses
     for ty, n in (("u8", 1000), ("u8", 256), ("i8", 300), ("i8", -200), ("u16", 70000), ("i16", -40000), ("u32", 4294967296), ("i32", 2147483648), ("u8", -1)):
         corpus.append(dup_project([("n", proj.A([ty, proj.A(["first", proj.num(n), proj.U(1)]), proj.A(["rest"])])), ("k", "plain")]))
+    # the corpus of past panic witnesses (degenerate declarations: a typed range without branches, null branches, non-finite bounds, …): whatever
+    # the answer is, it is the same in the three formats (each front-end drives the same visitors through its own `SeqAccess` / `MapAccess`)
+    from . import c09
+    corpus += [dup_project(list(map(tuple, tree["o"]))) for tree, _note in c09.WITNESS_PROJECTS]
+    for ty in ("i8", "u64", "f32", "f64"):
+        corpus.append(dup_project([("todo", proj.A([ty])), ("k", "plain")]))
+        corpus.append(dup_project([("g", proj.O([("todo", proj.A([ty]))])), ("k", "$t(g.todo, {\"count\": 1})")]))
     projects = corpus + [proj.gen_project(rng) for _ in range(ctx.budget(250, 5000))]
     base = run_projects(ctx, bins["json"], projects)
     again = run_projects(ctx, bins["json"], projects, want_model=False)
